@@ -444,8 +444,9 @@ func (p *proxyConn) writeResponse(res *http.Response) error {
 		}()
 	}
 
+	tunnel := req.Method == http.MethodConnect && res.StatusCode/100 == 2 || res.StatusCode == http.StatusSwitchingProtocols
 	switch {
-	case req.Method == http.MethodConnect && res.StatusCode/100 == 2, res.StatusCode == http.StatusSwitchingProtocols:
+	case tunnel:
 		// The response sets up a tunnel: from here on the connection lives as long as the tunnel does,
 		// whatever the request said about persistence (CONNECT over HTTP/1.0, "Connection: Upgrade, close")
 		// and also while the proxy is shutting down - the exchange has reached its target.
@@ -462,6 +463,16 @@ func (p *proxyConn) writeResponse(res *http.Response) error {
 		} else {
 			res.Close = true
 		}
+	}
+
+	// An HTTP/1.0 client does not know the chunked coding: a body whose length is not known
+	// in advance is delimited by closing the connection.
+	unchunked := false
+	if !req.ProtoAtLeast(1, 1) && !tunnel && !isHeaderOnlySpec(res) && (isChunked(res) || res.ContentLength == -1) {
+		unchunked = isChunked(res)
+		res.TransferEncoding = nil
+		res.ContentLength = -1
+		res.Close = true
 	}
 
 	if res.Close {
@@ -482,6 +493,9 @@ func (p *proxyConn) writeResponse(res *http.Response) error {
 		// This is safe for events that are smaller than the buffer io.Copy uses (32KB).
 		// If the event is larger than the buffer, the event will be split into multiple chunks.
 		switch {
+		case unchunked:
+			// There are no chunk boundaries left to look for: pass on whatever the upstream has sent so far.
+			err = res.Write(flushAfterWriteWriter{p.brw.Writer, p.brw.Writer})
 		case isTextEventStream(res) && !isChunked(res):
 			w := newEventFlushWriter(p.brw.Writer, p.brw.Writer)
 			err = res.Write(w)
